@@ -775,6 +775,94 @@ package adaptation
 //@ apply hookList(view, CreateContainer)
 //@ apply hookList(view, StartContainer)
 
+// ---------------------------------------------------------------------------
+// Environment (result.go: adjustEnv): ownership, release on removal, view normalisation
+// ---------------------------------------------------------------------------
+//@ pure noNilKV(s []*KeyValue) = forall i int :: 0 <= i && i < len(s) ==> allocated(s[i])
+//@ pure rmE(ds []*KeyValue, p string) = exists j int :: 0 <= j && j < len(ds) && ds[j].Key == "-" + p
+//@ pure setE(ds []*KeyValue, p string) = exists j int :: 0 <= j && j < len(ds) && ds[j].Key == p && !markedK(p)
+//@ pure inE(ds []*KeyValue, x *KeyValue) = exists j int :: 0 <= j && j < len(ds) && ds[j] == x
+//@ pure envkey(s string) = indexof(s, "=") >= 0 ? substr(s, 0, indexof(s, "=")) : s
+//@ pure kvstr(e *KeyValue) = e.Key + "=" + e.Value
+//@ pure envD(r *result) = reply(r).Env
+//@ pure envW(r *result) = view(r).Env
+//@ pure envL(r *result) = ledger(r).env
+//@ pure ownedE(r *result, p string) = has(r.owners, cid(r)) && has(envL(r), p)
+// representation invariant tying the ledger to the collected adjustment: a variable path has an
+// owner only while a variable with that path is in the collected list
+//@ pure envCons(r *result) = forall p string :: ownedE(r, p) ==> (exists j int :: 0 <= j && j < len(envD(r)) && envD(r)[j].Key == p)
+
+//@ func result.adjustEnv
+//@   props C01 C02 C03 C04
+//@   flag append-lemmas
+//@   requires wfCreate(r) && noNilKV(env) && noNilKV(envD(r))
+//@   requires sep(base(env), base(envD(r))) && sep(base(env), base(envW(r))) && sep(base(envD(r)), base(envW(r)))
+//@   modifies @writes
+//@   ensures [noop]   len(env) == 0 ==> result == nil && envD(r) == old(envD(r)) && envW(r) == old(envW(r))
+//@   ensures [owned]    result == nil ==> (forall j int :: 0 <= j && j < len(env) && !markedK(env[j].Key) ==> ownedE(r, env[j].Key) && envL(r)[env[j].Key] == plugin)
+//@   ensures [released] old(envCons(r)) ==> (forall p string :: rmE(env, p) && ownedE(r, p) ==> envL(r)[p] == plugin)
+//@   ensures [noblame]  forall p string :: ownedE(r, p) && !old(ownedE(r, p)) ==> envL(r)[p] == plugin
+//@   ensures [lkept]    forall p string :: ownedE(r, p) && old(ownedE(r, p)) && envL(r)[p] != plugin ==> envL(r)[p] == old(envL(r)[p])
+//@   ensures [c01]      result == nil ==> (forall j int :: 0 <= j && j < len(env) && !markedK(env[j].Key) && !rmE(env, env[j].Key) ==> !old(ownedE(r, env[j].Key)))
+//@   ensures [reply.new] result == nil ==> (forall j int :: 0 <= j && j < len(env) && !markedK(env[j].Key) ==> inE(envD(r), env[j]))
+//@   ensures [reply.gone] result == nil ==> (forall i int :: 0 <= i && i < len(envD(r)) ==> allocated(envD(r)[i]) && ((forall j int :: 0 <= j && j < len(env) ==> envD(r)[i] != env[j]) ==> !rmE(env, envD(r)[i].Key)))
+//@   ensures [cons]     old(envCons(r)) ==> envCons(r)
+//@   ensures [fwd] @thorough result == nil ==> (forall p string :: rmE(env, p) && !setE(env, p) ==> (exists i int :: 0 <= i && i < len(envD(r)) && envD(r)[i].Key == "-" + p))
+// loop 1: split the response into removals (del), sets (mod) and the list of sets in order (add)
+//@   loop 1 modifies elems(add), map(del), map(mod)
+//@   loop 1 invariant 0 <= idx + 1 && idx + 1 <= len(env) && del != nil && mod != nil && del != mod
+//@   loop 1 invariant (base(add) == base(entry(add)) || prefresh(add)) && sep(base(add), base(env)) && sep(base(add), base(envD(r))) && sep(base(add), base(envW(r)))
+//@   loop 1 invariant forall j int :: 0 <= j && j <= idx ==> (forall p string :: env[j].Key == "-" + p ==> has(del, p))
+//@   loop 1 invariant forall j int :: 0 <= j && j <= idx && !markedK(env[j].Key) ==> has(mod, env[j].Key)
+//@   loop 1 invariant forall i int :: 0 <= i && i < len(add) ==> allocated(add[i]) && !markedK(add[i].Key) && has(mod, add[i].Key) && inE(env, add[i])
+//@   loop 1 invariant forall j int :: 0 <= j && j <= idx && !markedK(env[j].Key) ==> inE(add, env[j])
+//@   loop 1 invariant forall p string :: has(del, p) ==> (exists j int :: 0 <= j && j <= idx && env[j].Key == "-" + p)
+//@   loop 1 invariant forall p string :: has(mod, p) ==> (exists j int :: 0 <= j && j <= idx && env[j].Key == p && !markedK(p))
+//@   loop 1 invariant forall p string :: has(del, p) ==> allocated(del[p]) && inE(env, del[p]) && del[p].Key == "-" + p
+// loop 2: drop removed env from the collected list and release their owners
+//@   loop 2 modifies elems(cleared), mapkey(r.owners, cid(r)), map(envL(r))
+//@   loop 2 invariant 0 <= idx + 1 && idx + 1 <= len(envD(r)) && wfCreate(r) && cid(r) == old(cid(r)) && id == cid(r) && create == r.request.create && envD(r) == pre(envD(r)) && envW(r) == pre(envW(r))
+//@   loop 2 invariant ledgerStep(r) && (pre(has(r.owners, cid(r))) ==> envL(r) == pre(envL(r))) && (!pre(has(r.owners, cid(r))) && has(r.owners, cid(r)) ==> zeroed(ledger(r)))
+//@   loop 2 invariant (base(cleared) == base(entry(cleared)) || prefresh(cleared)) && sep(base(cleared), base(env)) && sep(base(cleared), base(envD(r))) && sep(base(cleared), base(envW(r))) && sep(base(cleared), base(add))
+//@   loop 2 invariant forall i int :: 0 <= i && i < len(cleared) ==> allocated(cleared[i]) && !has(del, cleared[i].Key)
+//@   loop 2 invariant forall j int :: 0 <= j && j <= idx && has(del, envD(r)[j].Key) ==> !ownedE(r, envD(r)[j].Key)
+//@   loop 2 invariant forall j int :: 0 <= j && j <= idx && !has(del, envD(r)[j].Key) ==> inE(cleared, envD(r)[j])
+//@   loop 2 invariant forall p string :: ownedE(r, p) ==> pre(ownedE(r, p)) && envL(r)[p] == pre(envL(r)[p])
+//@   loop 2 invariant forall p string :: pre(ownedE(r, p)) && !has(del, p) ==> ownedE(r, p)
+//@   loop 2 invariant old(envCons(r)) ==> envCons(r)
+// loop 3: drop removed and re-set variables from the view shown to later plugins
+//@   loop 3 modifies elems(clearedEnv)
+//@   loop 3 invariant 0 <= idx + 1 && idx + 1 <= len(envW(r))
+//@   loop 3 invariant (base(clearedEnv) == base(entry(clearedEnv)) || prefresh(clearedEnv)) && sep(base(clearedEnv), base(envW(r)))
+//@   loop 3 invariant forall i int :: 0 <= i && i < len(clearedEnv) ==> !has(del, envkey(clearedEnv[i])) && !has(mod, envkey(clearedEnv[i]))
+//@   loop 3 invariant old(envCons(r)) ==> envCons(r)
+// loop 4: claim and append the sets
+//@   loop 4 modifies mapkey(r.owners, cid(r)), ledger(r).env, map(envL(r)), reply(r).Env, elems(envD(r))
+//@   loop 4 invariant 0 <= idx + 1 && idx + 1 <= len(add) && wfCreate(r) && cid(r) == old(cid(r)) && id == cid(r) && create == r.request.create
+//@   loop 4 invariant ledgerStep(r) && (pre(has(r.owners, cid(r))) && pre(envL(r)) != nil ==> envL(r) == pre(envL(r)))
+//@   loop 4 invariant has(r.owners, cid(r)) && envL(r) != nil && !(pre(has(r.owners, cid(r))) && pre(envL(r)) == envL(r)) ==> prefresh(envL(r))
+//@   loop 4 invariant (base(envD(r)) == pre(base(envD(r))) || prefresh(envD(r))) && sep(base(envD(r)), base(add)) && sep(base(envD(r)), base(envW(r))) && sep(base(envD(r)), base(env))
+//@   loop 4 invariant len(envD(r)) == pre(len(envD(r))) + idx + 1 && (forall k int :: 0 <= k && k < pre(len(envD(r))) ==> envD(r)[k] == pre(envD(r)[k])) && (forall i int :: 0 <= i && i <= idx ==> envD(r)[pre(len(envD(r))) + i] == add[i])
+//@   loop 4 invariant forall p string :: pre(ownedE(r, p)) ==> ownedE(r, p) && envL(r)[p] == pre(envL(r)[p])
+//@   loop 4 invariant forall p string :: ownedE(r, p) && !pre(ownedE(r, p)) ==> envL(r)[p] == plugin
+//@   loop 4 invariant old(envCons(r)) ==> envCons(r)
+//@   loop 4 invariant forall j int :: 0 <= j && j < len(env) && !markedK(env[j].Key) && (exists i int :: 0 <= i && i <= idx && add[i] == env[j]) ==> inE(envD(r), env[j])
+//@   loop 4 invariant forall i int :: 0 <= i && i <= idx ==> ownedE(r, add[i].Key) && envL(r)[add[i].Key] == plugin && !pre(ownedE(r, add[i].Key))
+// loop 5: forward the removal markers that have no set in this response (ranges over del)
+//@   loop 5 modifies reply(r).Env, elems(envD(r))
+//@   loop 5 invariant wfCreate(r) && cid(r) == old(cid(r)) && create == r.request.create
+//@   loop 5 invariant (base(envD(r)) == pre(base(envD(r))) || prefresh(envD(r))) && sep(base(envD(r)), base(add)) && sep(base(envD(r)), base(envW(r))) && sep(base(envD(r)), base(env))
+//@   loop 5 invariant len(envD(r)) >= pre(len(envD(r))) && (forall k int :: 0 <= k && k < pre(len(envD(r))) ==> envD(r)[k] == pre(envD(r)[k]))
+//@   loop 5 invariant forall j string :: visited(j) ==> has(del, j)
+//@   loop 5 invariant forall k string :: visited(k) && !has(mod, k) ==> inE(envD(r), del[k])
+//@   loop 5 invariant old(envCons(r)) ==> envCons(r)
+//@   loop 5 invariant forall j int :: 0 <= j && j < len(env) && !markedK(env[j].Key) ==> inE(envD(r), env[j])
+//@   loop 5 invariant forall i int :: 0 <= i && i < len(envD(r)) ==> allocated(envD(r)[i]) && ((forall j int :: 0 <= j && j < len(env) ==> envD(r)[i] != env[j]) ==> !rmE(env, envD(r)[i].Key))
+// loop 6: show the sets to later plugins as KEY=VALUE
+//@   loop 6 modifies view(r).Env, elems(envW(r))
+//@   loop 6 invariant 0 <= idx + 1 && idx + 1 <= len(add) && wfCreate(r) && create == r.request.create
+//@   loop 6 invariant (base(envW(r)) == pre(base(envW(r))) || prefresh(envW(r)))
+
 // ---- resources (generated by gen_resources.py) ----
 //@ pure vres(r *result) = r.request.create.Container.Linux.Resources
 //@ pure rres(r *result) = r.reply.adjust.Linux.Resources
